@@ -19,6 +19,11 @@ def _val(e: ast.AST, env: Dict[str, Any]) -> Any:
     txt = ast.unparse(e)
     if txt in env:
         return env[txt]
+    if isinstance(e, ast.IfExp):
+        c = eval_test(e.test, env)
+        if c is None:
+            return _UNKNOWN
+        return _val(e.body if c else e.orelse, env)
     if isinstance(e, ast.Constant):
         return e.value
     if isinstance(e, ast.Attribute) and isinstance(e.value, ast.Name) and \
@@ -134,3 +139,19 @@ def consistent_paths(paths, env: Dict[str, Any]):
         if ok:
             out.append((conds, e, r))
     return out
+
+
+def specialise(expr: Optional[ast.AST], env: Dict[str, Any], leaf=None) -> Optional[ast.AST]:
+    """``expr`` with every conditional expression whose test the scenario decides replaced by
+    the selected arm (at any depth)."""
+    import copy
+    if expr is None:
+        return None
+
+    class Tr(ast.NodeTransformer):
+        def visit_IfExp(self, node: ast.IfExp) -> ast.AST:
+            c = eval_test(node.test, env, leaf)
+            if c is None:
+                return self.generic_visit(node)
+            return self.visit(node.body if c else node.orelse)
+    return ast.fix_missing_locations(Tr().visit(copy.deepcopy(expr)))
